@@ -105,6 +105,8 @@ type Machine struct {
 	winChecked           map[*Term]bool
 	guards               map[interface{}]*guardInfo
 	guardOn              bool
+	noSample             bool
+	dlogs                []*dlog
 	hexModel  bool
 	rawCRC    bool
 	entry     func(g *G)
@@ -756,7 +758,7 @@ func (m *Machine) samplePath() {
 	if len(m.res.Violations) > 0 || m.res.Unknown > 0 {
 		return // conformance compares fully decided, violation-free paths only
 	}
-	if !m.p.wantSample(m.h.Name) {
+	if m.noSample || !m.p.wantSample(m.h.Name) {
 		return
 	}
 	if m.model == nil {
